@@ -1063,6 +1063,7 @@ func (h *RequestHeader) CopyTo(dst *RequestHeader) {
 	dst.host = append(dst.host, h.host...)
 	dst.userAgent = append(dst.userAgent, h.userAgent...)
 	dst.cookiesCollected = h.cookiesCollected
+	dst.disableSpecialHeader = h.disableSpecialHeader
 	dst.rawHeaders = append(dst.rawHeaders, h.rawHeaders...)
 }
 
